@@ -434,6 +434,7 @@ def run(R):
                    'body': g_cell(rng, rng.choice([0, 1, 32, 300, 700, 1023, rng.randrange(1024)]), rng.randrange(5))}
             one_message(R, L, msg)
         standalone(R, L, rng, quick)
+        hunted_wrappers(R, L, rng, quick)
     finally:
         inv.uninstall()
     R.floor('serialisations', 300)
@@ -446,6 +447,109 @@ def run(R):
         R.floor('grams_byte_lengths', 16, 'set')
         R.floor('extra_value_byte_lengths', 32, 'set')
     R.floor('edit_kinds', 5, 'set')
+
+
+def hunted_wrappers(R, L, rng, quick):
+    """three input classes the first versions never built (all found broken on the unchanged tree by sub-agents hunting for defects, fixed in the repository since):
+    a body that is an exotic cell, NFT data whose addresses are given as text, highload-wallet data with a non-empty query dictionary"""
+    import importlib
+    from lib import dictref
+    wal = importlib.import_module('pytoniq_core.tlb.custom.wallet')
+    nft = importlib.import_module('pytoniq_core.tlb.custom.nft')
+    from pytoniq_core.boc.address import Address
+    # (a) exotic bodies: a library reference, a pruned branch, a Merkle proof / update - small enough to fit inline, where only a reference keeps them what they are
+    leaf = rc.RC(gen.rand_bits(rng, 40), [rc.RC('101')])
+    bodies = [('library', rc.make_library(rng.randbytes(32))), ('pruned', rc.make_pruned(leaf, 1)), ('merkle-proof', rc.make_merkle_proof(rc.make_pruned(leaf, 1))),
+              ('merkle-update', rc.make_merkle_update(rc.make_pruned(leaf, 1), rc.make_pruned(rc.RC('11'), 1)))]
+    for bname, body in bodies:
+        for rep in range(3 if quick else 20):
+            msg = {'info': g_info(rng), 'init': g_state_init(rng) if rng.random() < 0.4 else None, 'body': body}
+            W = dict(describe(msg), body_kind=bname)
+            st, cell = mon.call(lambda: L.message(msg).serialize())
+            R.counters['oracle_evaluations'] += 1
+            R.count('exotic_body_cases')
+            if st == 'exc':
+                R.exc(cell)
+                if isinstance(cell, rc.RefError) or 'fit' in repr(cell):
+                    continue
+                R.violation(f'serialize-raises-exotic-body-{type(cell).__name__}', f'serialising a message whose body is a {bname} cell raised {cell!r}', W)
+                continue
+            try:
+                got, placement = T.dec_message(bridge.from_lib(cell))
+                ok = got['body'].hash == body.hash and got['body'].type == body.type
+            except Exception as e:
+                ok, placement = False, repr(e)
+            R.check(ok, 'exotic-body-not-preserved', f'a message with a {bname} body serialises to a cell whose body (read by block.tlb, placement {placement}) is another cell', W)
+            st, back = mon.call(parse_and_drain, L, cell)
+            R.check(st == 'ok' and back.body.hash == body.hash and back.body.type_ == body.type, 'exotic-body-not-preserved-by-parser',
+                    f'parse(serialize(m)) of a message with a {bname} body returns another body: {mon.srepr(getattr(back, "body", back), 60)}', W)
+    # (b) NFT item data built from address text (raw and friendly), collection with an anycast prefix or absent
+    for rep in range(8 if quick else 60):
+        idx, own, content = rng.getrandbits(64), g_int_addr(rng, False), g_cell(rng, 24, 0)
+        coll = rng.choice([None, g_int_addr(rng, False), dict(g_int_addr(rng, False), anycast=(3, 5))])
+        nw = T.W().u(idx, 64)
+        T.enc_msg_address(nw, coll)
+        T.enc_msg_address(nw, own)
+        nw.ref(content)
+        own_text = L.addr(own).to_str(rep % 2 == 0)
+        coll_arg = L.addr(coll) if (coll is None or 'anycast' in coll or rep % 3) else L.addr(coll).to_str(False)
+        W = {'owner_given_as': 'friendly text' if rep % 2 == 0 else 'raw text', 'collection': 'none' if coll is None else ('anycast' if 'anycast' in coll else type(coll_arg).__name__)}
+        st, c = mon.call(lambda: nft.NftItemData(idx, coll_arg, own_text, bridge.to_lib(content)).serialize())
+        R.counters['oracle_evaluations'] += 1
+        R.count('nft_text_address_cases')
+        if st == 'exc':
+            R.exc(c)
+            R.violation(f'NftItemData-text-address-raises-{type(c).__name__}', f'NftItemData with its owner address given as text raised {c!r}', W)
+        else:
+            R.check(c.hash == nw.cell().hash, 'NftItemData-text-address-encoding-differs', 'NftItemData built from address text differs from the block.tlb encoding of the same addresses', W)
+    # (c) highload wallet data with 0..5 remembered queries
+    for nq in ([0, 1, 2, 5] if quick else [0, 1, 2, 3, 5, 9, 20]):
+        wid, last, pk = rng.getrandbits(32), rng.getrandbits(64), rng.randbytes(32)
+        queries, enc = {}, {}
+        for _ in range(nq):
+            q = rng.getrandbits(64)
+            m = {'info': g_info(rng, 'int_msg_info', 0), 'init': None, 'body': g_cell(rng, rng.choice([0, 32]), 0)}
+            try:
+                mcell = T.cell_of(T.enc_message, m, 'inline', 'ref')
+            except rc.RefError:
+                continue
+            mode = rng.choice([0, 1, 3, 64, 128, 255])
+            queries[q] = (mode, m)
+            enc[dictref.u(q, 64)] = (dictref.u(mode, 8), [mcell])
+        w = T.W().u(wid, 32).u(last, 64).bits(rc.bytes_to_bits(pk))
+        if enc:
+            w.bits('1').ref(dictref.encode(enc, 64))
+        else:
+            w.bits('0')
+        W = {'queries': len(enc)}
+        st, c = mon.call(lambda: wal.HighloadWalletData(wid, last, pk, {q: wal.WalletMessage(mode, L.message(m)) for q, (mode, m) in queries.items()}).serialize())
+        R.counters['oracle_evaluations'] += 1
+        R.count('highload_wallet_cases')
+        if st == 'exc':
+            R.exc(c)
+            R.violation(f'HighloadWalletData-serialize-raises-{type(c).__name__}', f'HighloadWalletData.serialize with {len(enc)} queries raised {c!r}', W)
+            continue
+        R.check(bridge.from_lib(c).hash == w.cell().hash or all(_same_msg_cells(L, c, queries)), 'HighloadWalletData-encoding-differs',
+                f'HighloadWalletData with {len(enc)} queries: the cell does not hold the queries given', W)
+        st, back = mon.call(lambda: wal.HighloadWalletData.deserialize(bridge.to_lib(w.cell()).begin_parse()))
+        ok = st == 'ok' and back.wallet_id == wid and back.last_cleaned == last and back.public_key == pk and \
+            sorted((back.old_queries or {}).keys()) == sorted(queries) and \
+            all(getattr(back.old_queries[q], 'send_mode', None) == mode and diff(T.norm_msg(L.l_message(back.old_queries[q].message)), T.norm_msg(m)) is None for q, (mode, m) in queries.items())
+        R.check(ok, 'HighloadWalletData-roundtrip-differs', f'HighloadWalletData with {len(enc)} queries parses differently: {mon.srepr(back, 80)}', W)
+
+
+def _same_msg_cells(L, cell, queries):
+    """the library may place init / body differently from the reference: compare the parsed dictionary instead of the bytes"""
+    s = cell.begin_parse()
+    s.skip_bits(32 + 64 + 256)
+    d = s.load_dict(64) or {}
+    yield sorted(d) == sorted(queries)
+    for q, (mode, m) in queries.items():
+        v = d.get(q)
+        if v is None:
+            yield False
+            continue
+        yield v.load_uint(8) == mode and diff(T.norm_msg(L.l_message(L.tr.MessageAny.deserialize(v.load_ref().begin_parse()))), T.norm_msg(m)) is None
 
 
 def standalone(R, L, rng, quick):
